@@ -64,6 +64,7 @@ def comp : Component where
           | ["cancel", id] => id.toNat?.map fun id => go (.cancel id) s
           | ["ticks", n] => n.toNat?.map fun n => go (.ticks n) s
           | ["fire", i] => i.toNat?.map fun i => go (.timerWake i) s
+          | ["wake", i] => i.toNat?.map fun i => go (.tokenWake i) s
           | ["sec", i] => i.toNat?.map fun i =>
             match (s.threads[i]? : Option WPc) with
             | some (WPc.sleeping _ _ _) => (go (.tokenWake i) s).bind (go (.sec i))
